@@ -92,6 +92,12 @@ def main():
             try:
                 r = sh(["git", "-C", d, "apply", "--whitespace=nowarn", os.path.abspath(patch)])
                 if r.returncode != 0:
+                    # written against an earlier commit of /repo (before a later fix touched neighbouring lines): 3-way merge
+                    r = sh(["git", "-C", d, "apply", "--3way", "--whitespace=nowarn", os.path.abspath(patch)])
+                    if r.returncode == 0 and sh(["git", "-C", d, "diff", "--name-only", "--diff-filter=U"]).stdout.strip():
+                        r.returncode = 1
+                        r.stderr = "3-way merge left conflicts"
+                if r.returncode != 0:
                     print(f"{pid} {name}: PATCH DOES NOT APPLY: {r.stderr.strip()[:200]}")
                     matrix.setdefault(name, {})[pid] = "patch-does-not-apply"
                     rc_all = 1
